@@ -16,6 +16,8 @@
 mod decoder;
 mod encoder;
 mod stream_reader;
+#[cfg(woodpile_verif)]
+pub mod verif;
 
 use std::io::Read;
 use std::num::NonZeroUsize;
